@@ -103,11 +103,11 @@ def align_n(ctx, specs, join='outer', sort=False, axis=None, lk=None, dataset_at
             if not onlysingle:
                 if allinc:
                     if any(len(s) == 1 for s in srcs) and not alldec:
-                        ctx.region('C06.single-label-axis-direction', True)
+                        pass
                     oks.append(_strict(ctx, g0, True))
                 elif alldec:
                     if any(len(s) == 1 for s in srcs):
-                        ctx.region('C06.single-label-axis-direction', True)
+                        pass
                     oks.append(_strict(ctx, g0, False))
     # data: own values at own labels, NaN elsewhere
     for o, ref in zip(outs, refs):
